@@ -338,6 +338,46 @@ func (p *c14) Run(rec *core.Recorder, seed uint64, idx int, tier string) {
 		p.wild(rec, r, tier)
 		return
 	}
+	if idx%30 == 7 {
+		// small prefixes: a few bytes of literal text (with a backslash, a quote or a brace at every offset in turn) in
+		// front of a template whose tags hold quoted strings and hash literals change the output by that text only
+		tmpl := []string{
+			"{% include 'card' with {'title': 'Hi', 'n': 1} %}|{{ v }}",
+			"{{ {'a': 'x', 'b': \"y\"}|join('-') }}{% include 'card' with {'title': \"T\", 'n': 'N'} only %}",
+			"{% set h = {'k': 'v', 'l': \"w\"} %}{{ h.k }}{{ h.l }}{{ 'q'|replace({'q': 'Q', 'x': \"X\"}) }}",
+			"{% for k, x in {'a': 'p', 'b': 'q'} %}{{ k }}={{ x }};{% endfor %}{% include 'card' with {'title': v, 'n': [1, 'two']|length} %}",
+		}[r.Intn(4)]
+		off := r.Intn(24)
+		mark := []string{"\\", "\\\\\\", "'", "\"", "\\'", "}", "#"}[r.Intn(7)]
+		prefix := strings.Repeat("x", off) + mark + "y"
+		if r.P(1, 4) {
+			prefix = "{# " + strings.Repeat("c", off) + mark + " #}"
+			if strings.HasSuffix(mark, "#") {
+				prefix = "{# " + strings.Repeat("c", off) + " #}"
+			}
+		}
+		srcs := map[string]string{"card": "[{{ title }}|{{ n }}]", "main": tmpl}
+		ctx := map[string]interface{}{"v": "V"}
+		base := renderFresh(srcs, "main", ctx, nil)
+		srcs2 := map[string]string{"card": srcs["card"], "main": prefix + tmpl}
+		got := renderFresh(srcs2, "main", ctx, nil)
+		rec.Eval("small-prefixes", prefix+"\x00"+tmpl, true)
+		rec.Count("small-prefix-cases", 1)
+		visible := prefix
+		if strings.HasPrefix(prefix, "{#") {
+			visible = ""
+		}
+		if base.Panicked || base.Err != nil {
+			rec.Count("skipped-base-fails", 1)
+			return
+		}
+		if got.Panicked || got.Err != nil || got.Out != visible+base.Out {
+			rec.Violate("pad-invariance", core.SigHash("c14-prefix", prefix+tmpl),
+				fmt.Sprintf("%d bytes of literal text or comment in front of a template changed how its tags are read: with the prefix %s the output is %s (err=%v), without it %s", len(prefix), core.Q(prefix), core.Q(core.Trunc(got.Out, 200)), got.Err, core.Q(core.Trunc(base.Out, 200))),
+				map[string]any{"template": tmpl, "prefix": prefix}, got.Stack)
+		}
+		return
+	}
 	// ---- base template
 	var srcs map[string]string
 	var main string
